@@ -745,7 +745,15 @@ fn gen_actor(p: &Profile, rng: &mut Rng) -> Case {
                     if panic_at == Some(m) {
                         script.push(Act::Panic);
                     }
-                    if hk == 3 && g.rng.chance(1, 3) {
+                    if hk == 1 && g.rng.chance(1, 4) {
+                        // a batch of `Sender::send` futures created before any of them is polled
+                        let mut msgs = vec![(m, script)];
+                        for _ in 0..(1 + g.rng.below(3)) {
+                            let m2 = g.m();
+                            msgs.push((m2, vec![]));
+                        }
+                        ops.push(Op::SendBatch { h: hh, msgs });
+                    } else if hk == 3 && g.rng.chance(1, 3) {
                         // the forcing path of a weak sender (never waits for mailbox space)
                         ops.push(Op::ForceSend { h: hh, m, script });
                     } else {
@@ -1034,7 +1042,7 @@ fn gen_small(rng: &mut Rng) -> Case {
         if !a_has {
             break;
         }
-        match rng.below(18) {
+        match rng.below(19) {
             0 => {
                 next_m += 1;
                 a_ops.push(Op::Send { h: 1, m: next_m, script: script_for(&mut first_msg, vec![]) });
@@ -1077,6 +1085,18 @@ fn gen_small(rng: &mut Rng) -> Case {
                 a_ops.push(Op::Send { h: 1, m: next_m, script: script_for(&mut first_msg, vec![Act::CtxRestart]) });
             }
             14 => a_ops.push(if rng.chance(1, 2) { Op::Stopped { h: 1 } } else { Op::Running { h: 1 } }),
+            18 => {
+                // three `Sender::send` futures created first, then driven together
+                let hs = next_h;
+                next_h += 1;
+                a_ops.push(Op::MkSender { h: 1, h2: hs });
+                let mut msgs = vec![];
+                for _ in 0..3 {
+                    next_m += 1;
+                    msgs.push((next_m, script_for(&mut first_msg, vec![])));
+                }
+                a_ops.push(Op::SendBatch { h: hs, msgs });
+            }
             17 => {
                 // WeakSender::try_force_send, twice in a row (never waits, bounded or not)
                 let hw = next_h;
